@@ -1008,6 +1008,8 @@ class QuantityMeta(ClassWithDefinitionMeta):
         # reference unit
         if define_as is not None:
             assert define_as, "Given definition is not valid."  # empty Term
+            if not define_as.normalized():
+                raise ValueError("Given definition is dimensionless.")
             try:
                 ref_unit_def = UnitDefT(_iter_ref_units(define_as))
             except TypeError:
